@@ -217,7 +217,8 @@ int KSI_TlvElement_serialize(const KSI_TlvElement *element, unsigned char *buf, 
 	}
 
 	if (element->subList == NULL || KSI_TlvElementList_length(element->subList) == 0) {
-		dat_len = element->ftlv.dat_len;
+		/* An element that has been expanded consists of its children (here: none); its own declared length may be stale. */
+		dat_len = (element->subList == NULL) ? element->ftlv.dat_len : 0;
 
 		if (buf != NULL) {
 			if (buf_size <= dat_len) {
